@@ -25,8 +25,10 @@ ASSUMPTIONS = ['width arguments are small enough for CPython to allocate 1 << bi
                'wasm runtime wrappers: the names rotl/rotr/to_signed/to_unsigned/clz/ctz/popcnt/sign_extend used in '
                'ppci/wasm/execution/runtime.py are the ones of ppci.utils.bitfun (checked on the import statements of '
                'the current source on every run)',
-               'value_to_bits, bits_to_bytes, align: translated, cross-checked and swept, no theorem stated (not part of '
-               'the C39 statement)']
+               'value_to_bits, bits_to_bytes: translated and cross-checked, no theorem stated (not part of '
+               'the C39 statement)',
+               'wrap_negative/inrange theorems for bits >= 1 (bits <= 0 makes 1 << (bits - 1) raise); align theorem for '
+               'm > 0 with fuel >= m (m == 0 raises ZeroDivisionError, m < 0 is not covered)']
 
 WRAP_FILE = 'ppci/wasm/execution/runtime.py'
 WRAP_EXTERNAL = ['rotr', 'rotl', 'to_signed', 'to_unsigned', 'clz', 'ctz', 'popcnt', 'sign_extend']
@@ -316,6 +318,42 @@ def oracle_sweep(ctx, bf, thorough):
             if not (isinstance(got, OkV) and list(got.v) == exp):
                 ctx.violation({'fn': 'value_to_bytes_big_endian', 'args': [v, size], 'expected': exp,
                                'actual': list(got.v) if isinstance(got, OkV) else 'exception'})
+    # wrap_negative / inrange / align against their definitions (Spec/BitsSpecExt.v)
+    for n in list(range(1, (9 if thorough else 6))) + [12, 16, 32, 64]:
+        lo, hi = -(1 << (n - 1)), (1 << n)
+        if n <= 8:
+            vals_ = range(lo - 3, hi + 4)
+        else:
+            vals_ = sorted({lo - 1, lo, lo + 1, -1, 0, 1, -lo - 1, -lo, -lo + 1, hi - 1, hi, hi + 1, -hi,
+                            ctx.rng.randrange(2 * lo, 2 * hi)})
+        for v in vals_:
+            n_eval += 2
+            got = call_impl(bf.wrap_negative, [v, n], diag=(ValueError,))
+            if lo <= v < hi:
+                good = isinstance(got, OkV) and got.v == v % (1 << n)
+                exp = v % (1 << n)
+            else:
+                good = got is Diag
+                exp = 'ValueError'
+            if not good:
+                ctx.violation({'fn': 'wrap_negative', 'args': [v, n], 'expected': exp,
+                               'actual': got.v if isinstance(got, OkV) else getattr(got, '__name__', repr(got)),
+                               'how_to_replay': 'PYTHONPATH=/repo python -c "from ppci.utils.bitfun import wrap_negative; print(wrap_negative(%d, %d))"' % (v, n)})
+            got = call_impl(bf.inrange, [v, n])
+            exp = (lo <= v < -lo)
+            if not (isinstance(got, OkV) and got.v is exp):
+                ctx.violation({'fn': 'inrange', 'args': [v, n], 'expected': exp,
+                               'actual': got.v if isinstance(got, OkV) else 'exception',
+                               'how_to_replay': 'PYTHONPATH=/repo python -c "from ppci.utils.bitfun import inrange; print(inrange(%d, %d))"' % (v, n)})
+    for m in list(range(1, 10)) + [16, 64, 100]:
+        for v in list(range(-2 * m - 1, 2 * m + 2)) + [ctx.rng.randrange(-(1 << 40), 1 << 40)]:
+            n_eval += 1
+            got = call_impl(bf.align, [v, m])
+            exp = -((-v) // m) * m
+            if not (isinstance(got, OkV) and got.v == exp):
+                ctx.violation({'fn': 'align', 'args': [v, m], 'expected': exp,
+                               'actual': got.v if isinstance(got, OkV) else 'exception',
+                               'how_to_replay': 'PYTHONPATH=/repo python -c "from ppci.utils.bitfun import align; print(align(%d, %d))"' % (v, m)})
     # wasm runtime wrappers on signed operands
     rt = load_runtime()
     if rt is not None:
@@ -414,7 +452,7 @@ def regen(ctx):
 def run(ctx):
     import ppci.utils.bitfun as bf
     infos, hashes = regen(ctx)
-    ok, _ = ctx.build(['Proofs/C39_bitfun.vo', 'Proofs/C39_bitfun2.vo'])
+    ok, _ = ctx.build(['Proofs/C39_bitfun.vo', 'Proofs/C39_bitfun2.vo', 'Proofs/C39_bitfun3.vo'])
     if ok:
         ctx.check_props('Props/C39.v')
     # ---- correspondence: regenerated model vs implementation
@@ -469,10 +507,12 @@ MANIFEST = {
             'that decodes to the input (separately, as an implementation choice not required by C39: it uses the smallest rotation); that value_to_bytes_big_endian yields the size base-256 digits '
             'of value mod 256^size, most significant first; and that the wasm runtime wrappers i32/i64_rotl/rotr/clz/ctz/popcnt and '
             'iNN_extendM_s (ppci/wasm/execution/runtime.py) compute the n-bit operation on the two\'s-complement reading of their signed '
-            'operands. Both models are regenerated from the source by py2coq on every run, so the theorems are re-checked against the '
+            'operands; that wrap_negative succeeds exactly on values in [-2^(bits-1), 2^bits) and returns value mod 2^bits (else the documented '
+            'ValueError), that to_signed inverts it on the signed range, that inrange decides the signed n-bit range (equivalently: the '
+            'two\'s-complement reading preserves the value), and that align returns the least multiple of m >= value (m > 0). Both models are regenerated from the source by py2coq on every run, so the theorems are re-checked against the '
             'current code',
     'note': 'trusted: Coq kernel, tools/py2coq.py (cross-checked per run against the implementation on ~4000 boundary cases), '
-            'Python int == Z, the import check tying the wrapper callee names to ppci.utils.bitfun. value_to_bits/bits_to_bytes/align '
-            'are translated, cross-checked and swept against an independent reference but have no theorem. No axioms.',
+            'Python int == Z, the import check tying the wrapper callee names to ppci.utils.bitfun. value_to_bits/bits_to_bytes '
+            'are translated and cross-checked but have no theorem. No axioms.',
     'technique': 'Coq proof over py2coq-regenerated model + differential correspondence',
 }
